@@ -119,6 +119,8 @@ def _plan(draw, max_len):
         plan["args"] = {k: v for k, v in args.items() if k in ("q", "index")}
     if draw(st.integers(0, 3)) == 0:
         plan["reuse"] = draw(st.sampled_from([1, 1, 2]))
+    if draw(st.integers(0, 4)) == 0:
+        plan["editing_lambda_first"] = True
     return plan
 
 
@@ -326,7 +328,20 @@ def _check(plan, ctx):
                 data0 = di.DataFrame({"g": np.array(groups, dtype=np.int64).view(di.DataFrameColumn), "x": build.column(kind, other)})
                 ctx.call("aggregate on another frame with the same helper object", lambda: data0.group_by("g").aggregate(y=fobj))
                 ctx.cls("helper_object_reused_across_frames")
-        out = ctx.call(f"aggregate(y={h}('x'), ...)", lambda: data.group_by("g").aggregate(y=fobj, **later))
+        first = {}
+        if plan.get("editing_lambda_first"):
+            # an ordinary summary function listed before the helper, which edits the group frame it was handed (reverses
+            # the column, overwrites a cell): the helper still summarises the column's own elements
+            from .c06_alias import _poke_value
+            def editing(d):
+                col = d["x"]
+                if len(col) and col.flags.writeable:
+                    col[:] = col[::-1].copy()
+                    col[0] = _poke_value(col)
+                return len(col)
+            first = {"pre": editing}
+            ctx.cls("an_editing_lambda_listed_before_the_helper")
+        out = ctx.call(f"aggregate(y={h}('x'), ...)", lambda: data.group_by("g").aggregate(**first, y=fobj, **later))
         for j, e in enumerate(plan.get("extra", [])):
             if f"z{j}" not in later:
                 continue
